@@ -129,7 +129,12 @@ func (a *Act) exec(instr ssa.Instruction, st *State, reach string, b *ssa.BasicB
 			g.unsupported++
 		}
 	case *ssa.Alloc:
-		ref := a.alloc(st, a.nm(in.Name()), objAlloc(in.Type().Underlying().(*types.Pointer).Elem()))
+		var ref string
+		if in.Heap && !feedsOnlyErrorValue(in) {
+			ref = a.alloc(st, a.nm(in.Name()), objAlloc(in.Type().Underlying().(*types.Pointer).Elem()))
+		} else {
+			ref = a.allocLocal(st, a.nm(in.Name()), objAlloc(in.Type().Underlying().(*types.Pointer).Elem()))
+		}
 		a.bind(in, fmt.Sprintf("(mkPtr %s 0)", ref))
 	case *ssa.BinOp:
 		a.bind(in, a.binop(in, reach))
@@ -304,7 +309,7 @@ func (a *Act) exec(instr ssa.Instruction, st *State, reach string, b *ssa.BasicB
 	case *ssa.Range:
 		if mt, ok := in.X.Type().Underlying().(*types.Map); ok {
 			// ghost iterator object: its map-domain row is the set of keys visited so far (empty now)
-			ref := a.alloc(st, a.nm(in.Name()), allocType{key: "obj:rangeiter:" + mt.String(), typ: types.NewMap(mt.Key(), types.NewStruct(nil, nil))})
+			ref := a.allocLocal(st, a.nm(in.Name()), allocType{key: "obj:rangeiter:" + mt.String(), typ: types.NewMap(mt.Key(), types.NewStruct(nil, nil))})
 			a.env[in] = ref
 		} else {
 			a.env[in] = "RANGE"
@@ -323,6 +328,47 @@ func (a *Act) exec(instr ssa.Instruction, st *State, reach string, b *ssa.BasicB
 	default:
 		a.unsupported(instr, reach, st)
 	}
+}
+
+// feedsOnlyErrorValue: the allocation is the argument list of a call that builds an error value (fmt.Errorf(format,
+// args...)). Error values are opaque in the model (no heap footprint), and so is what they are formatted from: a
+// noalloc claim means "nothing but error values is allocated".
+func feedsOnlyErrorValue(al *ssa.Alloc) bool {
+	if al.Referrers() == nil {
+		return false
+	}
+	ok := false
+	for _, r := range *al.Referrers() {
+		switch x := r.(type) {
+		case *ssa.IndexAddr:
+			if x.Referrers() != nil {
+				for _, r2 := range *x.Referrers() {
+					if st, isStore := r2.(*ssa.Store); !isStore || st.Addr != ssa.Value(x) {
+						return false
+					}
+				}
+			}
+		case *ssa.Slice:
+			if x.Referrers() == nil {
+				return false
+			}
+			for _, r2 := range *x.Referrers() {
+				c, isCall := r2.(*ssa.Call)
+				if !isCall {
+					return false
+				}
+				f, isFn := c.Call.Value.(*ssa.Function)
+				if !isFn || (f.String() != "fmt.Errorf" && f.String() != "errors.New") {
+					return false
+				}
+				ok = true
+			}
+		case *ssa.DebugRef:
+		default:
+			return false
+		}
+	}
+	return ok
 }
 
 // derivedAddr: the address comes from an instruction that already carries its own nil/bounds obligation (or cannot be nil)
